@@ -153,12 +153,78 @@ static void phase(int k, const Cfg &c) {
     };
     rec(0, 0);
 }
+
+// ---- second scene family: pillars --------------------------------------------------------------------------------
+// A row of P pillars (2 cells wide, 2 cells apart, tops on one line y = 5 cells, open space above).  Connector alphabet -- every type puts a
+// horizontal segment ON the line of the tops:  hop(i,j) leaves the gap before pillar i, runs over pillars i..j and comes down in the gap after j
+// (a shiftable middle segment, free to move up);  L(a,b) starts ON the line in gap a and runs along it to gap b, then turns down (a FIXED first
+// segment);  I(a,b) is the straight connector along the line from gap a to gap b (one fixed segment).  Every ordered k-tuple of types (the order
+// is the creation order, which decides the order of the segment list the nudging code scans); the c-th connector is shifted by (c-1)/4 cell so
+// that no two connectors share an endpoint or a vertical segment.  The channel above the tops is unbounded, so a shiftable segment can always
+// be separated from whatever it overlaps: a collinear overlapping pair of different connectors is a violation unless BOTH segments are fixed.
+struct PConn { int type, a, b; };   // type 0 hop, 1 L, 2 I
+static string pstr(const PConn &c) { return mcx::fmt("%s(%d,%d)", c.type == 0 ? "hop" : c.type == 1 ? "L" : "I", c.a, c.b); }
+static void run_pillars(int P, const vector<PConn> &C, const Cfg &c) {
+    int k = C.size(); vector<string> kc; if (c.opts & 1) kc.push_back("option_nudgeOrthogonalSegmentsConnectedToShapes");
+    string desc = mcx::fmt("pillars P=%d idealNudgingDistance=%g options=%u conns (creation order):", P, c.nd, c.opts); for (auto &q : C) desc += " " + pstr(q);
+    ctx.announce(desc); ctx.count("transitions"); ctx.count("evaluations");
+    try {
+        Router *router = new Router(OrthogonalRouting); router->setRoutingParameter(segmentPenalty, 50); router->setRoutingParameter(idealNudgingDistance, c.nd);
+        for (int o = 0; o < 4; o++) router->setRoutingOption(OPTS[o], (c.opts >> o) & 1);
+        for (int i = 0; i < P; i++) { Rectangle r(Point((4 * i + 1) * S, 5 * S), Point((4 * i + 3) * S, 14 * S)); new ShapeRef(router, r); }
+        vector<ConnRef *> cs; vector<array<double, 4>> E;
+        for (int q = 0; q < k; q++) { double dx = (q - 1) * S / 4.0, x0, y0, x1, y1;
+            if (C[q].type == 0) { x0 = 4 * C[q].a * S + dx; y0 = 8 * S; x1 = (4 * C[q].b + 4) * S + dx; y1 = 8 * S; }
+            else if (C[q].type == 1) { x0 = 4 * C[q].a * S + dx; y0 = 5 * S; x1 = 4 * C[q].b * S + dx; y1 = 8 * S; }
+            else { x0 = 4 * C[q].a * S + dx; y0 = 5 * S; x1 = 4 * C[q].b * S + dx; y1 = 5 * S; }
+            E.push_back({{x0, y0, x1, y1}}); cs.push_back(new ConnRef(router, ConnEnd(Point(x0, y0)), ConnEnd(Point(x1, y1)))); }
+        router->processTransaction();
+        string all; for (int i = 0; i < k; i++) all += " [" + rstr(cs[i]->displayRoute()) + "]";
+        bool share = false, fixedPair = false;
+        for (int i = 0; i < k; i++) {
+            const PolyLine &d = cs[i]->displayRoute(); PolyLine r = cs[i]->route().simplify();
+            if (d.size() < 2 || d.ps[0].x != E[i][0] || d.ps[0].y != E[i][1] || d.ps[d.size() - 1].x != E[i][2] || d.ps[d.size() - 1].y != E[i][3]) ctx.violation("endpoint_moved", kc, desc, all);
+            if (d.size() > r.size()) ctx.violation("segments_added", {}, desc, mcx::fmt("conn %d raw %s display %s", i, rstr(r).c_str(), rstr(d).c_str()));
+            for (size_t q = 1; q < d.size(); q++) if (d.ps[q].x != d.ps[q - 1].x && d.ps[q].y != d.ps[q - 1].y) ctx.violation("not_orthogonal_after_nudging", {}, desc, all);
+        }
+        // two FIXED segments of different connectors collinear and overlapping (before nudging): the separation problem of the region has no solution
+        for (int i = 0; i < k; i++) for (int j = i + 1; j < k; j++) for (auto &s2 : segs(cs[i]->route().simplify())) for (auto &t : segs(cs[j]->route().simplify())) { double dist; double L = overlapLen(s2, t, dist); if (L > 1e-9 && dist < 1e-9) { share = true; if (s2.end && t.end) fixedPair = true; } }
+        if (fixedPair) kc.push_back("two_fixed_segments_collinear_and_overlapping");
+        for (int i = 0; i < k; i++) for (int j = i + 1; j < k; j++)
+            for (auto &s2 : segs(cs[i]->displayRoute())) for (auto &t : segs(cs[j]->displayRoute())) { double dist; double L = overlapLen(s2, t, dist); if (L <= 1e-9) continue;
+                if (s2.end && t.end && !(c.opts & 1)) { if (dist < 1e-6) ctx.count("both_fixed_not_judged"); continue; }
+                if (dist < 1e-6) { vector<string> kc2 = kc;   // class of KF-C10-2 (same definition as in the corridor family): shared-path nudging off and some connector's endpoint on the shared stretch
+                    bool horiz = s2.y0 == s2.y1; double lo = horiz ? max(min(s2.x0, s2.x1), min(t.x0, t.x1)) : max(min(s2.y0, s2.y1), min(t.y0, t.y1)), hi = horiz ? min(max(s2.x0, s2.x1), max(t.x0, t.x1)) : min(max(s2.y0, s2.y1), max(t.y0, t.y1));
+                    bool epOn = false; for (auto cr : cs) for (int q = 0; q < 2; q++) { const PolyLine &dr = cr->displayRoute(); const Point &ep = q ? dr.ps[dr.size() - 1] : dr.ps[0]; if (horiz ? (fabs(ep.y - s2.y0) < 1e-6 && ep.x >= lo - 1e-6 && ep.x <= hi + 1e-6) : (fabs(ep.x - s2.x0) < 1e-6 && ep.y >= lo - 1e-6 && ep.y <= hi + 1e-6)) epOn = true; }
+                    // ... or each of the two segments is held in place that way by some other segment (the rule ties a segment to the one it shares such a stretch
+                    // with, so two segments that are each tied to a fixed one -- or are fixed themselves -- stay on one line)
+                    auto held = [&](int ci, const Seg &a) { for (int u = 0; u < k; u++) if (u != ci) for (auto &w : segs(cs[u]->displayRoute())) { double d2; double L2 = overlapLen(a, w, d2); if (L2 <= 1e-9 || d2 > 1e-6) continue;
+                            bool hz = a.y0 == a.y1; double l2 = hz ? max(min(a.x0, a.x1), min(w.x0, w.x1)) : max(min(a.y0, a.y1), min(w.y0, w.y1)), h2 = hz ? min(max(a.x0, a.x1), max(w.x0, w.x1)) : min(max(a.y0, a.y1), max(w.y0, w.y1));
+                            for (auto cr : cs) for (int q = 0; q < 2; q++) { const PolyLine &dr = cr->displayRoute(); const Point &ep = q ? dr.ps[dr.size() - 1] : dr.ps[0]; if (hz ? (fabs(ep.y - a.y0) < 1e-6 && ep.x >= l2 - 1e-6 && ep.x <= h2 + 1e-6) : (fabs(ep.x - a.x0) < 1e-6 && ep.y >= l2 - 1e-6 && ep.y <= h2 + 1e-6)) return true; } }
+                        return false; };
+                    if (!((c.opts >> 3) & 1) && (epOn || ((held(i, s2) || s2.end) && (held(j, t) || t.end)))) kc2.push_back("shared_path_nudging_off_and_endpoint_on_shared_stretch");
+                    ctx.violation("shared_path_not_separated", kc2, desc, all); }
+                else if (dist < c.nd / 10 - 1e-6 && s2.y0 == s2.y1 && fabs(min(s2.y0, t.y0) - 5 * S) < 3 * c.nd + 1e-6) ctx.violation("separated_less_than_nudging_distance", kc, desc, mcx::fmt("distance %g < %g:", dist, c.nd / 10) + all); }
+        if (share) ctx.count("nontrivial");
+        ctx.cls("pillars_display_bends_conn0", mcx::fmt("%zu", cs[0]->displayRoute().size() - 2));
+        delete router;
+    } catch (vpsc::CriticalFailure &f) { ctx.library_abort(f.what(), desc); }
+}
+static void pillar_phase(int P, int k, const Cfg &c) {
+    vector<PConn> al; for (int i = 0; i < P; i++) for (int j = i; j < P; j++) al.push_back({0, i, j});
+    for (int t = 1; t <= 2; t++) for (int a = 0; a <= P; a++) for (int b = a + 1; b <= P; b++) al.push_back({t, a, b});
+    ctx.phase(mcx::fmt("pillars P=%d: every ordered %d-tuple of %zu connector types (hops over pillars i..j, L and I connectors along the line of the tops) nd=%g options=%u", P, k, al.size(), c.nd, c.opts));
+    vector<int> idx(k, 0);
+    do { if (ctx.stopped()) return; if (!ctx.next()) continue; vector<PConn> C; for (int i : idx) C.push_back(al[i]); ctx.count("states"); ctx.sample(pstr(C[0]) + " " + pstr(C[1]) + " ...", 1); run_pillars(P, C, c); ctx.done_case(); } while (mcx::odo_next(idx, (int)al.size()));
+}
 int main(int argc, char **argv) {
     ctx.init(argc, argv);
     bool T = ctx.thorough();
     for (double nd : {1.0, 4.0, 12.0}) for (unsigned o = 0; o < 16; o++) { phase(2, {nd, 1, o, 0, false}); phase(3, {nd, 1, o, 0, false}); phase(2, {nd, 2, o, 0, false}); phase(2, {nd, 1, o, 0, true}); }
     for (double nd : {4.0, 12.0}) for (unsigned o : {0u, 2u, 15u}) { phase(3, {nd, 2, o, 0, false}); phase(3, {nd, 1, o, 0, true}); }
     phase(4, {4, 1, 2, 0, false}); phase(4, {4, 2, 15, 0, false});
+    for (unsigned o = 0; o < 16; o++) { pillar_phase(2, 2, {4, 0, o, 0, false}); pillar_phase(3, 3, {4, 0, o, 0, false}); }
+    if (T) for (double nd : {1.0, 12.0}) for (unsigned o = 0; o < 16; o++) { pillar_phase(3, 3, {nd, 0, o, 0, false}); pillar_phase(4, 3, {nd, 0, o, 0, false}); }
     if (T) { for (double nd : {1.0, 4.0, 12.0}) for (unsigned o = 0; o < 16; o++) { phase(3, {nd, 2, o, 0, false}); phase(3, {nd, 1, o, 0, true}); phase(2, {nd, 3, o, 0, false}); phase(2, {nd, 2, o, 0, true}); }
              for (double nd : {1.0, 4.0, 12.0}) for (unsigned o : {0u, 2u, 8u, 15u}) { phase(4, {nd, 1, o, 0, false}); phase(4, {nd, 2, o, 0, false}); phase(3, {nd, 3, o, 0, false}); phase(3, {nd, 2, o, 0, true}); } }
     return ctx.finish();
